@@ -16,6 +16,8 @@ struct protoent *__wrap_getprotobyname(const char *name)
 {
     lk_calls++;
     if (!name) return NULL;
+    /* outcome 4: the word is a service, but the protocol its entry names cannot be looked up (a broken protocols database) */
+    if (lk_outcome == 4 && (!strcmp(name, "tcp") || !strcmp(name, "udp")) && strcmp(name, lk_word)) return NULL;
     if (!strcmp(name, "tcp") || !strcmp(name, "udp") || (lk_outcome == 1 && !strcmp(name, lk_word))) {
         snprintf(pe_name, sizeof(pe_name), "%s", name);
         pe.p_name = pe_name; pe.p_aliases = no_aliases; pe.p_proto = !strcmp(name, "udp") ? 17 : 6;
@@ -27,7 +29,7 @@ struct servent *__wrap_getservbyname(const char *name, const char *proto)
 {
     lk_calls++;
     if (!name || strcmp(name, lk_word)) return NULL;
-    if ((lk_outcome == 2 && proto && !strcmp(proto, "tcp")) || (lk_outcome == 3 && proto && !strcmp(proto, "udp"))) {
+    if (((lk_outcome == 2 || lk_outcome == 4) && proto && !strcmp(proto, "tcp")) || (lk_outcome == 3 && proto && !strcmp(proto, "udp"))) {
         snprintf(se_name, sizeof(se_name), "%s", name);
         snprintf(se_proto, sizeof(se_proto), "%s", proto);
         se.s_name = se_name; se.s_aliases = no_aliases; se.s_port = htons((unsigned short) lk_port); se.s_proto = se_proto;
